@@ -322,7 +322,7 @@ def run(ctx):
     q = ctx.quick
     ctx.rule = ('TLC-enumerated lattice eps {0.05,0.1,0.2,0.5,0.8} x 8 position angles x {Gaussian, exponential, Sersic} x fix flags x integration (bilinear, nearest, mean, median) / growth '
                 'modes x 2 centres x {square, wide, tall, near the left / bottom border, large (sma to 65)} frames x first guess {near, perpendicular PA (round galaxies)}, a seeded stratified sample of which is fitted with fit_image from a perturbed start; non-trivial = eps >= 0.2 or a fix flag set')
-    for cfg in ('MC_IsoGrowth.cfg', 'MC_IsoGrowth_lin.cfg', 'MC_IsoGrowth_inside.cfg', 'MC_IsoGrowth_outside.cfg'):
+    for cfg in ('MC_IsoGrowth.cfg', 'MC_IsoGrowth_lin.cfg', 'MC_IsoGrowth_inside.cfg', 'MC_IsoGrowth_outside.cfg') + (() if q else ('MC_IsoGrowth_t.cfg',)):
         r = ctx.mc('IsoGrowth', cfg, timeout=1800, workers=4)
     # the loop as it stood in the pinned tree must be REJECTED by TLC: it re-tries an invalid outward fit for ever and indexes an empty list
     for cfg, what in (('MC_IsoGrowth_pinned_live.cfg', 'Termination'), ('MC_IsoGrowth_pinned_crash.cfg', 'NoCrash')):
